@@ -106,7 +106,7 @@ def run_witnesses(prop):
     out = r.stdout + r.stderr
     res = []
     for w in items:
-        ok_line = [l for l in out.splitlines() if w["name"] in l and l.rstrip().endswith("ok")]
+        ok_line = [l for l in out.splitlines() if (" - %s (line" % w["name"]) in l and l.rstrip().endswith("ok")]
         res.append({"name": w["name"], "kind": w["kind"], "passed": bool(ok_line)})
     return {"exit": r.returncode, "items": res, "tail": out[-1500:] if r.returncode else ""}
 
